@@ -95,6 +95,8 @@ pub fn profile_for(id: &str, rng: &mut Rng) -> Profile {
             // a third of the histories run VACUUM now and then: what a ROLLBACK left behind must stay
             // gone (and what it spared must stay) when VACUUM cleans up and forgets the aborted ids
             p.w_vacuum = *rng.pick(&[0, 0, 3]);
+            // (sessions may be open when it runs: VACUUM aborts them - a rollback nobody asked for)
+            p.zombie_sessions = rng.chance(50);
         }
         "C04" => {
             p.max_sessions = rng.range(2, 4) as u32;
